@@ -37,8 +37,13 @@ class IndBase(Contract):
     def extra_cases(self, tier):
         return [{}]
 
+    thorough_horizons = ()
+    thorough_task_sets = (("Fm", "Fm", "Vo", "Fo"),)
+
     def cases(self, tier):
-        return [dict(ts=ts, horizon=h, **e) for ts in self.task_sets for h in self.horizons for e in self.extra_cases(tier)]
+        hs = tuple(self.horizons) + (tuple(self.thorough_horizons) if tier == "thorough" else ())
+        tss = tuple(self.task_sets) + (tuple(self.thorough_task_sets) if tier == "thorough" else ())
+        return [dict(ts=ts, horizon=h, **e) for ts in tss for h in hs for e in self.extra_cases(tier)]
 
     def make_worker(self, ps, P, case):
         return ps.Worker(name="w")
@@ -108,6 +113,7 @@ class Utilization(IndBase):
     target = "indicator.IndicatorResourceUtilization.__init__"
     # the horizon divides the busy time: a symbolic divisor is non-linear, so it is taken from a list
     horizons = (1, 3, 7, 10, 64, 100, 150, 200, None)
+    thorough_horizons = (2, 5, 9, 11, 33, 99, 101, 128, 999, 1000)
     bounded = "horizon in {1,3,7,10,64,100,150,200} or not given; 1..3 tasks on the resource; other integers symbolic"
 
     def extra_cases(self, tier):
